@@ -271,6 +271,15 @@ INFO = {
  ('14','C15','m2'): ("timeout creates a second StreamController on the same subscriber, whose hook overwrites the first one's finalizer: the end comes from downstream or from the timeout itself, the source owns a scheduler thread and stays silent afterwards", ['C06']),
  ('14','C16','m1'): ("timeout numbers its items and a timer only fires if its number is still current: the second item passes through the whole handler while the first is still being delivered, the first then arms last (stale number) - no TimedOut ever", []),
  ('14','C16','m2'): ("delay waits with park_timeout and an on_finalize hook unparks the recorded thread: a stream that ends while its thread is not parked leaves an unpark token, the next item pushed by that thread is not delayed", []),
+ ('15','C01','m2'): ("the terminal state becomes an AtomicU8 with one bit per terminal kind and each terminal tests only its own bit: an ill-formed source signals both kinds of terminal, subscriber directly on the source", ['C19']),
+ ('15','C05','m1'): ("inner_subscribe hands out an inert Subscription when Arc::strong_count says the source kept no handle on its observer: a source that emits synchronously or not at all, sends no terminal and does not keep its observer (never(), create with items only) - is_subscribed() reads false at once", []),
+ ('15','C08','m2'): ("the worker treats `Arc::strong_count(data) == 1` like an abort: tasks still queued when the last scheduler handle is dropped are never run although abort was never called", []),
+ ('15','C10','m1'): ("Subject keeps an AtomicUsize observer count for a fast path in next; the teardown subtracts unconditionally, also after a terminal has cleared the map: subscribe A, terminal, A unsubscribed (wraps), subscribe B (back to 0), next(v) is skipped", []),
+ ('15','C10','m2'): ("two cooperating edits: Observer::unsubscribe returns early once !is_subscribed(), and ReplaySubject::observable drops its explicit inner unsubscribe: a late subscribe to a ReplaySubject that has already ended leaves a registration in the inner Subject", ['C17']),
+ ('15','C12','m1'): ("ReplaySubject forwards an item pushed by the subscribing thread at once instead of buffering it during the history hand-over (thread id): a late subscriber's own callback pushes into the subject before the last history item", ['C10']),
+ ('15','C12','m2'): ("BehaviorSubject takes its version from a relaxed AtomicU64 and stores (version, value) afterwards: producer A holds ticket 1, B completes ticket 2, a subscriber is handed 2, A then stores and broadcasts 1 - current and filtered out", ['C10']),
+ ('15','C18','m1'): ("to_vec records the ThreadId that built the future and its terminal callbacks skip the wake-up on that thread: the emitting thread builds the future, another task polls it once (Pending), then the builder emits the terminal", []),
+ ('15','C19','m1'): ("the item path holds only a Weak to the terminated flag and a failed upgrade counts as not terminated: both terminals have reached the subscriber (flag freed), then an item still on its way is delivered", ['C01']),
 }
 
 def rows(path):
